@@ -63,6 +63,7 @@ def direct (name : String) (a b : Value) : Option (Res Value) :=
   | "lt" => some (tryCmp .lt a b)
   | "le" => some (tryCmp .le a b)
   | "and" => some (tryAnd a b)
+  | "merge" => some (tryMerge a b)
   | "or" => some (tryOr a (.ok b))
   | "eq" => some (.ok (.bool (eqImpl a b)))
   | "ne" => some (.ok (.bool (!eqImpl a b)))
